@@ -9,10 +9,18 @@ VARIANTS = [
     ("frac,pershare", {"integer": False, "fee": "pershare", "spread": None, "mult": {"b": 2}}),
     ("int,flat,m2", {"integer": True, "fee": "flat", "spread": None, "mult": {"a": 2}}),
     ("frac,none,spread", {"integer": False, "fee": None, "spread": 0.5, "mult": {}}),
+    ("frac,selllevy", {"integer": False, "fee": "selllevy", "spread": None, "mult": {}}),
 ]
 
 
 def ops_for(prop, shape, spec):
+    if shape == "MC":
+        R = []
+        ops = [["next"], ["update"], ["adjust", R, 16.0, True], ["adjust", R, 4.0, False]]
+        for c, q in (("c", 8.0), ("c", -12.0), ("e", 2.0), ("e", -3.0)):
+            ops += [["transact", R, c, q]]
+        ops += [["alloc", R, "c", 16.0], ["alloc", R, "e", -8.0], ["reb", R, "c", 0.5], ["close", R, "c"], ["close", R, "e"], ["flatten", R]]
+        return ops
     if shape in ("F1", "F2"):
         return alpha.fi_ops(shape) + [["adjust", [], 4.0, False]]
     if prop == "C03":
@@ -35,6 +43,8 @@ def configs(prop, tier, seed):
         if prop in ("C02", "C07"):
             plan.append(("F1", VARIANTS[(seed + 1) % len(VARIANTS)], 3, "exact"))
             plan.append(("T3", VARIANTS[2 + seed % 3], 2, "exact"))
+            plan.append(("MC", VARIANTS[(seed + 1) % 2], 3, "exact"))
+            plan.append(("T1", VARIANTS[6], 3, "exact"))
             plan.append(("T1", VARIANTS[(seed + 3) % len(VARIANTS)], 3, "zero"))
             plan.append(("T1", VARIANTS[(seed + 4) % len(VARIANTS)], 3, "zero2"))
             plan.append(("T1", VARIANTS[1 + (seed % 2) * 2], 3, "spreadpath"))
@@ -60,6 +70,9 @@ def configs(prop, tier, seed):
                 plan.append(("F1", v, 3, "exact"))
             plan.append(("F2", VARIANTS[1], 3, "exact"))
             plan.append(("F1", VARIANTS[1], 3, "decimal"))
+            for v in (VARIANTS[0], VARIANTS[1], VARIANTS[4]):
+                plan.append(("MC", v, 4, "exact"))
+            plan.append(("T2", VARIANTS[6], 3, "exact"))
     for shape, (vn, v), depth, al in plan:
         spec = dict(v, shape=shape, alpha=al, capital=64.0, ndates=4)
         if al == "zero":
@@ -76,7 +89,7 @@ def configs(prop, tier, seed):
             spec["alpha"] = "exact"
             spec["prices"] = {"a": [4.0, 0.0, 0.0, 2.0], "b": [1.0, 2.0, 0.0, 1.0]}
             spec["preops"] = [["transact", [], "a", 3.0], ["next"]]
-        if shape in ("F1", "F2"):
+        if shape in ("F1", "F2", "MC"):
             spec["mult"] = {"c": 2} if v["mult"] else {}
         if shape == "T2":
             spec["prefund"] = [[[], "s1", 24.0], [[], "s2", 8.0]]
